@@ -507,3 +507,69 @@ func calledStatic(fn *ssa.Function) []*ssa.Function {
 	}
 	return out
 }
+
+// ruleGRDdupcheck: check-then-register is atomic.
+func ruleGRDdupcheck(w *World, r *Report) {
+	r.Doc("GRD-dupcheck", "every registration of an external id (externalToInternalID[id] = n) in the insertion paths is preceded, inside the same exclusive hold of metaMu, by a lookup of that map: a duplicate test made under an earlier (read) hold lets two concurrent inserts of one id both pass and create two live nodes", 2)
+	n := 0
+	for _, name := range []string{"Index.addActive", "Index.addBatchInternal"} {
+		fi := w.Func("pkg/core/hnsw", name)
+		if fi == nil {
+			r.Und("GRD-dupcheck", "anchor:"+name, "", "anchor lost")
+			continue
+		}
+		fn := w.SSAFunc(fi.Obj)
+		isMapOf := func(v ssa.Value) bool {
+			ld, ok := v.(*ssa.UnOp)
+			if !ok {
+				return false
+			}
+			fa, ok := ld.X.(*ssa.FieldAddr)
+			return ok && fieldName(fa) == "externalToInternalID"
+		}
+		isLookup := func(in ssa.Instruction) bool {
+			lk, ok := in.(*ssa.Lookup)
+			return ok && isMapOf(lk.X)
+		}
+		isCheck := func(in ssa.Instruction) bool {
+			if isLookup(in) {
+				return true
+			}
+			// a helper that only looks ids up and returns an error (checkBatchIDs takes its own read lock: it does
+			// NOT count — the test must be made under the exclusive hold)
+			return false
+		}
+		isWLock := func(in ssa.Instruction) bool {
+			c, ok := in.(*ssa.Call)
+			if !ok {
+				return false
+			}
+			o := calleeObj(&c.Call)
+			return o != nil && o.Pkg() != nil && o.Pkg().Path() == "sync" && shortName(o) == "RWMutex.Lock" && recvIsField(c, "metaMu")
+		}
+		locks := findInstrs(fn, isWLock)
+		per := 0
+		for _, b := range fn.Blocks {
+			for _, in := range b.Instrs {
+				mu, ok := in.(*ssa.MapUpdate)
+				if !ok || !isMapOf(mu.Map) {
+					continue
+				}
+				n++
+				per++
+				mm := ssa.Instruction(mu)
+				bad := len(locks) == 0
+				var wit []ssa.Instruction
+				for _, l := range locks {
+					if found, wt := (pathQuery{fn: fn, target: func(x ssa.Instruction) bool { return x == mm }, avoid: isCheck, blocked: zeroIterEdges(fn, isCheck)}).find(posOf(l)); found {
+						bad, wit = true, append([]ssa.Instruction{l}, wt...)
+					}
+				}
+				r.Cond(!bad, "GRD-dupcheck", fmt.Sprintf("%s:register#%d", name, per), w.Pos(mu.Pos()), "the id map is consulted after metaMu was write-locked and before the id is registered", name+" registers an external id under metaMu.Lock without having looked the id up since that lock was taken (the duplicate test, if any, ran under an earlier hold): two concurrent inserts of the same id both pass and both create a live node — searches return the id twice and one node can never be deleted", w.witness(wit)...)
+			}
+		}
+	}
+	if n < 2 {
+		r.Und("GRD-dupcheck", "anchor:registrations", "", fmt.Sprintf("expected the id registrations of addActive and addBatchInternal, found %d", n))
+	}
+}
